@@ -42,6 +42,13 @@ def gffGroupGo (idKey : τ) (cur : Option (GFeat τ)) (curId : Option τ) : List
     else
       gffGroupGo idKey (cur.map (fun f => { f with locs := f.locs ++ [e.loc] })) id es
 
+/-- `set_annotation` (repaired): IDs must be unique, a feature with several locations needs an ID
+(`ValueError` otherwise, nothing is written); then one entry per location. -/
+def gffSetAnnotE (idKey : τ) (fs : List (GFeat τ)) : Except Err (List (GEnt τ)) :=
+  if ¬ (fs.filterMap (fun f => gffIdOf idKey f.qual)).Nodup then .error .valueError
+  else if fs.any (fun f => decide (1 < f.locs.length) && (gffIdOf idKey f.qual).isNone) then .error .valueError
+  else .ok (fs.flatMap gffExpand)
+
 def gffGroup (idKey : τ) (es : List (GEnt τ)) : List (GFeat τ) := gffGroupGo idKey none none es
 
 end BiotiteModel.C12
